@@ -1,5 +1,6 @@
 (* C04 - the Y86 register file reads old values, writes at cycle end, M port wins. *)
 From HclV Require Import Base Expr Machine MachineSpec MachineProofs Generated.
+From HclV Require TextLevelSpec TextLevelProofs.
 From HclV Require HistorySpec HistoryProofs.
 Open Scope string_scope.
 Open Scope N_scope.
@@ -77,3 +78,11 @@ Print Assumptions C04_table_E_before_M.
 Theorem C04_register_file_history : HistorySpec.stmt_regfile_history.
 Proof. exact HistoryProofs.regfile_history_holds. Qed.
 Print Assumptions C04_register_file_history.
+
+(* ---- END TO END, from the program TEXT (TextLevelSpec.v / TextLevelProofs.v): the user's file (valid
+   UTF-8) after the compiled preamble, lexed with any Unicode classification, parsed with the compiled
+   tier table, built with the compiled component table; states = those reachable by loading an
+   image and stepping.  No hypothesis a user cannot check by reading the file. ------------------- *)
+Theorem C04_text_level : TextLevelSpec.stmt_text_ports_scheduled /\ TextLevelSpec.stmt_text_regfile_history.
+Proof. split; [exact TextLevelProofs.text_ports_scheduled_holds | exact TextLevelProofs.text_regfile_history_holds]. Qed.
+Print Assumptions C04_text_level.
